@@ -5,9 +5,9 @@ at check time and must produce exactly: Map(#entries written) followed by the en
 import os, sys
 D = os.path.dirname(os.path.dirname(os.path.abspath(__file__)))
 
-def gen(unit, props, source_ser, impl, ty, type_source, table, field_types, aliases, extra_types="", ty_kind="struct"):
+def gen(unit, props, source_ser, impl, ty, type_source, table, field_types, aliases, extra_types="", ty_kind="struct", helpers=True, rewrites=("serret",), chunk=0):
     d = os.path.join(D, "contracts", unit); os.makedirs(d, exist_ok=True)
-    opaque = sorted(set(field_types.values()) - set(aliases))
+    opaque = sorted(set(field_types.values()) - set(aliases) - {"u32", "u64"})
     pre = "ser_coll!(%s);\n" % ", ".join(opaque)
     for a, b in aliases.items():
         pre += "pub type %s = %s;\n" % (a, b)
@@ -44,25 +44,52 @@ def gen(unit, props, source_ser, impl, ty, type_source, table, field_types, alia
     t = ['unit = "%s"' % unit, 'properties = [%s]' % ", ".join('"%s"' % p for p in props),
          'prelude = ["../_common/base.rs", "../_common/cbor_model.rs", "prelude.rs"]', 'lemmas = ["spec.rs"]', '',
          '[[type]]', 'source = "%s"' % type_source, 'name = "%s"' % ty, 'kind = "%s"' % ty_kind, '',
-         '[[fn]]', 'source = "rust/src/utils.rs"', 'name = "opt64"', 'ensures = ["r == cnt_o(*o)"]', '',
-         '[[fn]]', 'source = "rust/src/utils.rs"', 'name = "opt64_non_empty"', 'ensures = ["r == cnt_ne(*o)"]', '',
+         ] + (['[[fn]]', 'source = "rust/src/utils.rs"', 'name = "opt64"', 'ensures = ["r == cnt_o(*o)", "r <= 1"]', 'head = "reveal(cnt_o);"', '',
+         '[[fn]]', 'source = "rust/src/utils.rs"', 'name = "opt64_non_empty"', 'ensures = ["r == cnt_ne(*o)", "r <= 1"]', 'head = "reveal(cnt_ne);"', ''] if helpers else []) + [
          '[[fn]]', 'source = "%s"' % source_ser, 'impl = "%s"' % impl, 'emit_impl = "impl Ser for %s"' % ty, 'name = "serialize"',
-         'id = "%s::serialize"' % ty, 'rewrites = ["serret"]', 'rlimit = 100',
+         'id = "%s::serialize"' % ty, 'rewrites = [%s]' % ", ".join('"%s"' % r for r in rewrites), 'rlimit = 100',
          "impl_pre = '''\n    open spec fn enc(&self) -> Seq<Tok> { %s_apply(Seq::empty(), *self) }\n'''" % unit,
          'head_raw = "let ghost t0 = serializer.toks(); let ghost b = *self; proof { lemma_%s_apply(t0, b); }"' % unit]
-    # cut hints: after the header and after each entry.  Anchors: the statement that starts the NEXT entry.
     def anchor(key, f, kind):
         return "serializer.write_unsigned_integer(%d)?;" % key if kind == "req" else "if let Some(field) = &self.%s" % f
-    prev = "t0.push(Tok::Map(%s_count(b) as u64))" % unit
-    for i, (nm, key, f, kind) in enumerate(names):
-        t += ['[[fn.hint]]', 'before_stmt = "%s"' % anchor(key, f, kind), 'raw = true']
-        if i == 0:
-            t.append('proof = "proof { assert(serializer.toks() == %s); } let ghost s0 = serializer.toks();"' % prev)
+    if chunk:
+        # R-chunk: the optional entries go into helper methods of `chunk` entries each; the header and required entries stay in the main body
+        reqs = [x for x in names if x[3] == "req"]
+        opts = [x for x in names if x[3] != "req"]
+        t.append('chunk_impl = "impl %s"' % ty)
+        prev = "t0.push(Tok::Map(%s_count(b) as u64))" % unit
+        for i, (nm, key, f, kind) in enumerate(reqs):
+            t += ['[[fn.hint]]', 'before_stmt = "%s"' % anchor(key, f, kind), 'raw = true']
+            if i == 0:
+                t.append('proof = "proof { assert(serializer.toks() == %s); } let ghost s0 = serializer.toks();"' % prev)
+            else:
+                pn = reqs[i - 1][0]
+                t.append('proof = "proof { assert(serializer.toks() == %s(s%d, b)) by { reveal(%s); } } let ghost s%d = serializer.toks();"' % (pn, i - 1, pn, i))
+        groups = [opts[i:i + chunk] for i in range(0, len(opts), chunk)]
+        # hint before the first chunk call
+        t += ['[[fn.hint]]', 'before_stmt = "self.serialize_chunk_0(serializer)?;"']
+        if reqs:
+            pn = reqs[-1][0]
+            t.append('proof = "assert(serializer.toks() == %s(s%d, b)) by { reveal(%s); }"' % (pn, len(reqs) - 1, pn))
         else:
-            pn = names[i - 1][0]
-            t.append('proof = "proof { reveal(%s); assert(serializer.toks() == %s(s%d, b)); } let ghost s%d = serializer.toks();"' % (pn, pn, i - 1, i))
-    ln = names[-1][0]
-    t += ['[[fn.hint]]', 'before_stmt = "Ok(())"', 'nth = -1', 'proof = "reveal(%s); assert(serializer.toks() == %s(s%d, b));"' % (ln, ln, len(names) - 1)]
+            t.append('proof = "assert(serializer.toks() == %s);"' % prev)
+        for g in groups:
+            comp = "old(serializer).toks()"
+            for (nm, key, f, kind) in g:
+                comp = "%s(%s, *self)" % (nm, comp)
+            t += ['[[fn.chunk]]', 'take = %d' % len(g), 'ensures = ["r is Ok ==> final(serializer).toks() == %s"]' % comp,
+                  'head = "%s"' % " ".join("reveal(%s);" % x[0] for x in g)]
+    else:
+        prev = "t0.push(Tok::Map(%s_count(b) as u64))" % unit
+        for i, (nm, key, f, kind) in enumerate(names):
+            t += ['[[fn.hint]]', 'before_stmt = "%s"' % anchor(key, f, kind), 'raw = true']
+            if i == 0:
+                t.append('proof = "proof { assert(serializer.toks() == %s); } let ghost s0 = serializer.toks();"' % prev)
+            else:
+                pn = names[i - 1][0]
+                t.append('proof = "proof { assert(serializer.toks() == %s(s%d, b)) by { reveal(%s); } } let ghost s%d = serializer.toks();"' % (pn, i - 1, pn, i))
+        ln = names[-1][0]
+        t += ['[[fn.hint]]', 'before_stmt = "Ok(())"', 'nth = -1', 'proof = "assert(serializer.toks() == %s(s%d, b)) by { reveal(%s); }"' % (ln, len(names) - 1, ln)]
     open(os.path.join(d, "unit.toml"), "w").write("\n".join(t) + "\n")
     print("generated", unit, len(table), "keys")
 
@@ -78,3 +105,15 @@ if __name__ == "__main__":
               network_id="NetworkId", collateral_return="TransactionOutput", voting_procedures="VotingProcedures", voting_proposals="VotingProposals")
     gen("ser_body", ["C03", "C01"], "rust/src/serialization/transaction_body.rs", "impl cbor_event::se::Serialize for TransactionBody", "TransactionBody",
         "rust/src/protocol_types/transaction_body.rs", body, ft, {"Coin": "BigNum", "SlotBigNum": "BigNum"})
+
+    ppu_fields = ["minfee_a","minfee_b","max_block_body_size","max_tx_size","max_block_header_size","key_deposit","pool_deposit","max_epoch","n_opt",
+        "pool_pledge_influence","expansion_rate","treasury_growth_rate","d","extra_entropy","protocol_version","min_pool_cost","ada_per_utxo_byte",
+        "cost_models","execution_costs","max_tx_ex_units","max_block_ex_units","max_value_size","collateral_percentage","max_collateral_inputs",
+        "pool_voting_thresholds","drep_voting_thresholds","min_committee_size","committee_term_limit","governance_action_validity_period",
+        "governance_action_deposit","drep_deposit","drep_inactivity_period","ref_script_coins_per_byte"]
+    # Conway CDDL protocol_param_update: keys 0..14, 16..33 (15 is unused)
+    ppu_keys = list(range(0, 15)) + list(range(16, 34))
+    ppu = [(k, f, "opt") for k, f in zip(ppu_keys, ppu_fields)]
+    ft = dict(a="BigNum", b="UnitInterval", c="Nonce", d="ProtocolVersion", e="Costmdls", f="ExUnitPrices", g="ExUnits", h="PoolVotingThresholds", i="DRepVotingThresholds")
+    gen("ser_ppu", ["C03", "C01"], "rust/src/serialization/protocol_param_update.rs", "impl cbor_event::se::Serialize for ProtocolParamUpdate", "ProtocolParamUpdate",
+        "rust/src/protocol_types/protocol_param_update.rs", ppu, ft, {"Coin": "BigNum", "Epoch": "u32"}, helpers=True, rewrites=("serret", "matchcount"), chunk=6)
